@@ -73,7 +73,9 @@ def handleSsoCookie (l : Line) : List Verdict :=
     let name ← l.str? "name"
     let domain ← l.str? "domain"
     let ssodomain ← l.str? "ssodomain"
-    pure (verdictsOf [] (if domain.toLower != ssodomain.toLower then [("C16.cookie_domain", s!"the SSO server (Host {host}, {op}) wrote cookie {name} with Domain '{domain}' instead of the SSO domain '{ssodomain}'")] else []))
+    let httponly := (l.bool? "httponly").getD true
+    pure (verdictsOf [] ((if domain.toLower != ssodomain.toLower then [("C16.cookie_domain", s!"the SSO server (Host {host}, {op}) wrote cookie {name} with Domain '{domain}' instead of the SSO domain '{ssodomain}'")] else []) ++
+                         (if !httponly then [("C14.attr.httponly", s!"the SSO server ({op}) wrote cookie {name} without HttpOnly")] else [])))
   r.getD [Verdict.bad "ssocookie"]
 
 end Ww.Driver
